@@ -199,7 +199,7 @@ func (wd *world) afterFault(r *sim.R, before, after *model.Store, wo *writeout, 
 	var seen *model.Store
 	if werr == nil {
 		// the call reported success: its data must be fully committed
-		s, cl, det := wd.checkStore(after, nil, "")
+		s, cl, det := wd.CheckStore(after, nil, "")
 		if cl != "" {
 			if v := r.Report(&sim.Violation{Clause: "acknowledged-but-" + cl, Signature: sig, Detail: det}); v != nil {
 				return v
@@ -212,7 +212,7 @@ func (wd *world) afterFault(r *sim.R, before, after *model.Store, wo *writeout, 
 		r.Probe("fault_survived_write_acknowledged")
 	} else {
 		blk := wo.block()
-		s, cl, det := wd.checkStore(before, &blk, wo.iface)
+		s, cl, det := wd.CheckStore(before, &blk, wo.iface)
 		if cl != "" {
 			if v := r.Report(&sim.Violation{Clause: cl, Signature: sig, Detail: det}); v != nil {
 				return v
@@ -223,7 +223,7 @@ func (wd *world) afterFault(r *sim.R, before, after *model.Store, wo *writeout, 
 		}
 		seen = s
 	}
-	if v := wd.checkServices(seen, wo.iface, true, func(cl, det string) *sim.Violation {
+	if v := wd.CheckServices(seen, wo.iface, true, func(cl, det string) *sim.Violation {
 		return r.Report(&sim.Violation{Clause: cl, Signature: sig, Detail: det})
 	}); v != nil {
 		return v
@@ -244,11 +244,11 @@ func (wd *world) afterFault(r *sim.R, before, after *model.Store, wo *writeout, 
 	aft := seen.Clone()
 	aft.Add(next.iface, next.block())
 	wd.fs.Restart("r")
-	seen2, cl, det := wd.checkStore(aft, nil, "")
+	seen2, cl, det := wd.CheckStore(aft, nil, "")
 	if cl != "" {
 		return r.Report(&sim.Violation{Clause: "next-writeout-" + cl, Signature: sig, Detail: fmt.Sprintf("after %s following the fault: %s", next, det)})
 	}
-	return wd.checkServices(seen2, "", false, func(cl, det string) *sim.Violation {
+	return wd.CheckServices(seen2, "", false, func(cl, det string) *sim.Violation {
 		return r.Report(&sim.Violation{Clause: "next-writeout-" + cl, Signature: sig, Detail: det})
 	})
 }
@@ -257,7 +257,7 @@ func (wd *world) afterFault(r *sim.R, before, after *model.Store, wo *writeout, 
 func (wd *world) faultedRetry(r *sim.R, before *model.Store, wo *writeout, sig string, followFlows []model.Flow) *sim.Violation {
 	wd.fs.Restart("r")
 	blk := wo.block()
-	seen, cl, _ := wd.checkStore(before, &blk, wo.iface)
+	seen, cl, _ := wd.CheckStore(before, &blk, wo.iface)
 	if cl != "" || seen == nil {
 		return nil // already reported by afterFault
 	}
